@@ -349,7 +349,7 @@ def wrapped_cases(cfg, ordinary=False):
 def join_scratch_cases(cfg):
     """Join-heavy programs whose names come from the scratch / alias names a join uses (guard, merge and suffix columns,
     join aliases), placed on one chosen column: the place where 'a scratch name must be free on BOTH inputs' matters."""
-    names = [x for x in internal_names() if any(k in x for k in ("null_key", "merge", "join", "right", "left"))]
+    names = [x for x in internal_names() if any(k in x for k in ("null_key", "merge_col", "_da_right", "_da_left"))]
     return st.fixed_dictionaries(
         {
             "case": gen.programs(cfg),
